@@ -98,6 +98,39 @@ def PDomain.dec : Sexp → Option PDomain
     pure { vars := (← optAll (vs.map CName.dec)), ty := (← PVarType.dec ty), iterVars := ivs, iters := es }
   | _ => none
 
+def optExpEnc : Option PExp → Sexp
+  | none => .atom "none"
+  | some e => e.enc
+
+def itersEnc (vs : List IterVar) (es : List PExp) : Sexp :=
+  .list (.atom "its" :: (vs.zip es).map fun (v, e) => app "it" [v.enc, e.enc])
+
+def CName.enc : CName → Sexp
+  | .plain n => app "v" [.str n]
+  | .compound n idx => app "cv" (.str n :: idx.map PExp.enc)
+
+def Cmp.enc : Cmp → Sexp
+  | .le => .atom "le" | .ge => .atom "ge" | .eq => .atom "eq" | .lt => .atom "lt" | .gt => .atom "gt"
+
+def PVarType.enc : PVarType → Sexp
+  | .boolean => .atom "bool"
+  | .nonNegReal a b => app "nnreal" [optExpEnc a, optExpEnc b]
+  | .real a b => app "real" [optExpEnc a, optExpEnc b]
+  | .intRange a b => app "intrange" [a.enc, b.enc]
+
+def PConstraint.enc (c : PConstraint) : Sexp :=
+  app "c" [(match c.name with | none => .atom "none" | some n => n.enc), c.lhs.enc, c.cmp.enc, c.rhs.enc,
+    .atom (if c.logic then "true" else "false"), itersEnc c.iterVars c.iters]
+
+def PDomain.enc (d : PDomain) : Sexp :=
+  app "dom" [.list (.atom "vars" :: d.vars.map CName.enc), d.ty.enc, itersEnc d.iterVars d.iters]
+
+def PModel.enc (m : PModel) : Sexp :=
+  app "premodel" [app "obj" [.atom m.objKind.text, m.objective.enc],
+    .list (.atom "constraints" :: m.constraints.map PConstraint.enc),
+    .list (.atom "consts" :: m.constants.map fun (n, v) => app "let" [.str n, v.enc]),
+    .list (.atom "domains" :: m.domains.map PDomain.enc)]
+
 def ObjKind.dec : Sexp → Option ObjKind
   | .atom "min" => some .min | .atom "max" => some .max | .atom "solve" => some .solve | _ => none
 
